@@ -30,7 +30,22 @@ type Sched struct {
 	changeAt   []int
 	steps      int
 	yieldByTag map[string]int
+	// Lazy: the worker was built against the instrumented copy (cmd/instr), in which the parent's blocking operations
+	// are scheduling points ("wait:all" before wg.Wait, "wait:recv" before a channel receive). The await hook then
+	// returns at once and the parent advances the tasks only as far as its own blocking operations require, so that
+	// it can return while tasks are still parked (goroutines that outlive the call) exactly when the code allows it.
+	Lazy bool
+	last int
+	// CancelAt >= 0: the k-th "offspring" yield of the epoch calls OnCancel first (fault injection inside reproduction)
+	CancelAt  int
+	OnCancel  func()
+	offspring int
+	Cancelled bool
 }
+
+// Instrumented tells whether this worker was built against the instrumented copy of the tree (set from the
+// environment by the worker binary).
+var Instrumented = false
 
 type schedTask struct {
 	id      int
@@ -52,7 +67,7 @@ var stratNames = []string{"random", "run-to-completion", "round-robin", "pct"}
 
 // NewSched creates a scheduler whose decisions come from the tape.
 func NewSched(t *Tape) *Sched {
-	return &Sched{t: t, strategy: t.Draw("sched.strategy", numStrats), yieldByTag: map[string]int{}, tasks: make([]*schedTask, 0, 4096)}
+	return &Sched{t: t, strategy: t.Draw("sched.strategy", numStrats), yieldByTag: map[string]int{}, tasks: make([]*schedTask, 0, 4096), CancelAt: -1, last: -1}
 }
 
 func (s *Sched) StrategyName() string { return stratNames[s.strategy] }
@@ -118,7 +133,23 @@ func (s *Sched) yield(tag string) {
 	}
 	t := s.current
 	if t == nil || t.state != 2 {
+		// not a task: the parent. Its blocking operations drive the schedule in lazy mode.
+		if s.Lazy && len(tag) > 5 && tag[:5] == "wait:" {
+			if tag == "wait:all" {
+				for s.step() {
+				}
+			} else {
+				s.step()
+			}
+		}
 		return
+	}
+	if tag == "offspring" && s.CancelAt >= 0 {
+		if s.offspring == s.CancelAt && s.OnCancel != nil {
+			s.Cancelled = true
+			s.OnCancel()
+		}
+		s.offspring++
 	}
 	t.tag = tag
 	t.state = 1
@@ -180,7 +211,8 @@ func (s *Sched) finish() {
 	s.current = nil
 }
 
-// await is the scheduling loop, run by the parent goroutine in place of blocking in WaitGroup.Wait.
+// await is called by the parent goroutine before it waits for the reproduction goroutines. Eager mode: it is the
+// scheduling loop, in place of blocking in WaitGroup.Wait. Lazy mode: it only prepares the strategy.
 func (s *Sched) await() {
 	if !s.active {
 		return
@@ -190,32 +222,72 @@ func (s *Sched) await() {
 		s.MaxTasks = n
 	}
 	s.initStrategy(n)
-	last := -1
-	for {
-		var allDone, ok bool
+	s.last = -1
+	s.offspring = 0
+	if s.Lazy {
+		return
+	}
+	for s.step() {
+	}
+}
+
+// step waits until every live task is parked, releases one chosen by the strategy and waits until it has parked again
+// or ended. It returns false (and closes the epoch's schedule) when all tasks have ended.
+func (s *Sched) step() bool {
+	if !s.active {
+		return false
+	}
+	settle := func() (allDone bool) {
 		for i := 0; ; i++ {
-			allDone, ok = s.quiescent()
+			done, ok := s.quiescent()
 			if ok {
-				break
+				return done
 			}
 			idle(i)
 		}
-		if allDone {
-			break
-		}
-		cands := s.parked()
-		pick := s.choose(cands, last)
-		tag := s.releaseTask(pick)
-		s.Yields++
-		s.yieldByTag[tag]++
-		if pick != last {
-			s.Switches++
-		}
-		s.TraceHash = Mix(s.TraceHash, uint64(pick), HashString(tag))
-		last = pick
-		s.steps++
 	}
-	s.finish()
+	if settle() {
+		s.finish()
+		return false
+	}
+	cands := s.parked()
+	pick := s.choose(cands, s.last)
+	tag := s.releaseTask(pick)
+	s.Yields++
+	s.yieldByTag[tag]++
+	if pick != s.last {
+		s.Switches++
+	}
+	s.TraceHash = Mix(s.TraceHash, uint64(pick), HashString(tag))
+	s.last = pick
+	s.steps++
+	if settle() {
+		s.finish()
+		return false
+	}
+	return true
+}
+
+// Pending is the number of reproduction goroutines that have not ended although the parent has returned.
+//
+//go:norace
+func (s *Sched) Pending() int {
+	if !s.active {
+		return 0
+	}
+	n := 0
+	for _, t := range s.tasks {
+		if t.state != 3 {
+			n++
+		}
+	}
+	return n
+}
+
+// Drain runs the tasks that outlived the call to their end.
+func (s *Sched) Drain() {
+	for s.step() {
+	}
 }
 
 func (s *Sched) initStrategy(n int) {
